@@ -219,6 +219,23 @@ static void op_bad_hash(void) { /* wrong-length change hash must be refused clea
 static void op_str_cmp(void) {
   obs_begin(); printf(" %d", C(AMstrCmp)(tspan(T(1)), tspan(T(2)))); obs_end();
 }
+static void op_misc(void) { /* random actor id (only its shape is observable), AMstr, AMbytes */
+  AMresult* r = C(AMactorIdInit)();
+  AMactorId const* a = NULL;
+  size_t nb = 0, ns = 0;
+  if (rok(r) && C(AMitemToActorId)(C(AMresultItem)(r), &a)) {
+    AMbyteSpan b = C(AMactorIdBytes)(a), s = C(AMactorIdStr)(a);
+    touch(b); touch(s); nb = b.count; ns = s.count;
+  }
+  C(AMresultFree)(r);
+  AMbyteSpan k = tspan(T(1));
+  AMbyteSpan viaBytes = C(AMbytes)(k.src, k.count);
+  AMbyteSpan nul = C(AMbytes)(NULL, 7);
+  obs_begin();
+  printf(" %zu %zu %d %d %zu %d", nb, ns, C(AMstrCmp)(C(AMstr)("abc"), C(AMstr)("abd")), C(AMstrCmp)(viaBytes, k), nul.count,
+         C(AMstr)(NULL).src == NULL);
+  obs_end();
+}
 static void op_end(void) {
   bool rev = !strcmp(T(1), "rev");
   int n = 0;
@@ -261,7 +278,7 @@ static OpDef const OPS[] = {
   {"msg_rt", op_msg_rt}, {"sync_rt", op_sync_rt}, {"sync_info", op_sync_info},
   {"sync_equal", op_sync_equal}, {"iter", op_iter}, {"item_result", op_item_result},
   {"cat", op_cat}, {"items_equal", op_items_equal}, {"item_equal", op_item_equal},
-  {"hash_item", op_hash_item}, {"bad_hash", op_bad_hash}, {"str_cmp", op_str_cmp}, {"end", op_end},
+  {"hash_item", op_hash_item}, {"bad_hash", op_bad_hash}, {"str_cmp", op_str_cmp}, {"misc", op_misc}, {"end", op_end},
   {NULL, NULL}};
 
 static void set_opt(char const* name, int v) {
